@@ -35,6 +35,12 @@ def check_C04(rep, known):
     recs = [r for r in recs if r['sc']['reset'] or r['sc']['pon'] != 'parent']
     outs = engine.pool_map('stages', 'replay', recs)
     engine.process_results(rep, recs, outs, [r'C12\.a:(rows|extra|parent|interference)'], known)
+    # SplineMethod: path constraints with include_first / include_last next to a constraint with next(), boundary constraints
+    recs, st = tlc.generate('ScenSplineM', 'ScenSplineM.cfg', 'C17c', rep.tier, rep.seed, parts=1)
+    rep.add_tlc(st)
+    recs = [r for r in recs if r['sc']['refine'] == 1 or not (r['sc']['incF'] and r['sc']['incL'])]
+    outs = engine.pool_map('splinem', 'replay', recs)
+    engine.process_results(rep, recs, outs, [r'C17\.c:rows:(path|bnd0|bndf|extra)'], known)
 
 
 def mc_job(rep, module, cfg, expect_violation=None, workers=16, env=None):
@@ -108,6 +114,12 @@ def check_C05(rep, known):
     recs = [r for r in recs if r['sc']['reset']]
     outs = engine.pool_map('stages', 'replay', recs)
     engine.process_results(rep, recs, outs, [r'C12\.c:f'], known)
+    # SplineMethod: Mayer term + node sum + integral(grid='control') + integral (Milne rule on the refined grid)
+    recs, st = tlc.generate('ScenSplineM', 'ScenSplineM.cfg', 'C17c', rep.tier, rep.seed, parts=1)
+    rep.add_tlc(st)
+    recs = [r for r in recs if r['sc']['refine'] == 1 and r['sc']['incF'] and r['sc']['incL']]
+    outs = engine.pool_map('splinem', 'replay', recs)
+    engine.process_results(rep, recs, outs, [r'C17\.c:f'], known)
 
 
 
